@@ -290,7 +290,9 @@ def build_test(world: World, tbs, t):
                     continue  # automatically created group: cannot carry inputs in the document
                 x = arr[idx]
                 val = _yaml_value(world, spec, arr, idx)
-                doc[plural][iid].setdefault(var, {})[per] = val
+                # (a year written without quotes is read back as an integer key by YAML)
+                key = int(per) if (len(per) == 4 and per.isdigit() and (len(var) + int(per)) % 2) else per
+                doc[plural][iid].setdefault(var, {})[key] = val
                 n_written += 1
             if n_written:
                 # every instance declared: the input is what was given; some created
